@@ -107,6 +107,14 @@ pub fn read_buf_stub(_f: &mut File, mut cursor: std::io::BorrowedCursor<'_, u8>)
         Ok(())
     }
 }
+/// `BufReader::new` allocates an 8 KiB buffer, which CBMC drags through every
+/// read; the capacity is not observable, so 64 bytes are used instead.
+pub fn bufreader_new_stub<R: io::Read>(inner: R) -> io::BufReader<R> {
+    io::BufReader::with_capacity(64, inner)
+}
+pub fn bufwriter_new_stub<W: io::Write>(inner: W) -> io::BufWriter<W> {
+    io::BufWriter::with_capacity(64, inner)
+}
 pub fn write_stub(_f: &mut File, buf: &[u8]) -> io::Result<usize> {
     unsafe {
         let n = buf.len();
@@ -180,6 +188,8 @@ macro_rules! fs_harness {
         #[cfg_attr(kani, kani::stub(std::fs::OpenOptions::open, crate::fsenv::oo_open_stub))]
         #[cfg_attr(kani, kani::stub(<std::fs::File as std::io::Read>::read, crate::fsenv::read_stub))]
         #[cfg_attr(kani, kani::stub(<std::fs::File as std::io::Read>::read_buf, crate::fsenv::read_buf_stub))]
+        #[cfg_attr(kani, kani::stub(std::io::BufReader::new, crate::fsenv::bufreader_new_stub))]
+        #[cfg_attr(kani, kani::stub(std::io::BufWriter::new, crate::fsenv::bufwriter_new_stub))]
         #[cfg_attr(kani, kani::stub(<std::fs::File as std::io::Write>::write, crate::fsenv::write_stub))]
         #[cfg_attr(kani, kani::stub(<std::fs::File as std::io::Write>::flush, crate::fsenv::flush_stub))]
         #[cfg_attr(kani, kani::stub(<std::os::fd::OwnedFd as core::ops::Drop>::drop, crate::fsenv::close_stub))]
